@@ -145,6 +145,17 @@ func (x *Exec) native(name string, fn *ssa.Function, args []Value) (Value, bool)
 			if r, ok := x.simpleSprintf(format, vals); ok {
 				return r, true
 			}
+			// a symbolic byte operand is case split over its feasible values, then formatted natively
+			s := args[1].(SliceV)
+			for i := range vals {
+				if iv, ok := vals[i].(Iface); ok {
+					if t, ok := iv.v.(*Term); ok && !t.isC && !t.sort.FP && !t.sort.Bool && t.sort.Width == 8 {
+						c := x.concretize(t, 0, 255, false)
+						store(s.a.e[s.off+i], Iface{t: iv.t, v: BV(uint64(c), 8)})
+					}
+				}
+			}
+			vals = x.sliceVals(s)
 			symbolic := false
 			for _, v := range vals {
 				if iv, ok := v.(Iface); ok {
@@ -191,7 +202,36 @@ func (x *Exec) native(name string, fn *ssa.Function, args []Value) (Value, bool)
 			return x.newError(s), true
 		}
 		return strOf(s), true
-	case "fmt.Fprintf", "fmt.Fprintln", "fmt.Println", "fmt.Printf":
+	case "fmt.Fprintf":
+		// format as Sprintf does, then hand the bytes to the writer's Write method
+		w, isIface := args[0].(Iface)
+		if !isIface || w.t == nil {
+			return Tuple{BV(0, 64), Iface{}}, true
+		}
+		if _, isNative := w.v.(Native); isNative {
+			return Tuple{BV(0, 64), Iface{}}, true // an unmodelled writer (os.Stderr, ...): output discarded
+		}
+		if pt, ok := w.t.(*types.Pointer); ok {
+			if nt, ok := pt.Elem().(*types.Named); ok && nt.Obj().Pkg() != nil && nt.Obj().Pkg().Path() == "os" && x.fileOf(w.v) == nil {
+				return Tuple{BV(0, 64), Iface{}}, true // os.Stdout / os.Stderr
+			}
+		}
+		sf := x.prog.ImportedPackage("fmt").Func("Sprintf")
+		formatted, ok := x.native("fmt.Sprintf", sf, args[1:])
+		if !ok {
+			panic(abortPath{"Fprintf could not be formatted", false})
+		}
+		st, isStr := formatted.(*Str)
+		if !isStr {
+			panic(abortPath{"Fprintf of symbolic operands to a modelled writer (text is opaque)", false})
+		}
+		m := x.prog.MethodSets.MethodSet(w.t).Lookup(nil, "Write")
+		if m == nil {
+			panic(abortPath{"Fprintf to a writer without Write", false})
+		}
+		r := x.call(x.prog.MethodValue(m), []Value{w.v, x.convert(st, types.Typ[types.String], types.NewSlice(types.Typ[types.Byte]))}, nil)
+		return r, true
+	case "fmt.Fprintln", "fmt.Println", "fmt.Printf":
 		return Tuple{BV(0, 64), Iface{}}, true
 	case "regexp.QuoteMeta":
 		if _, ok := args[0].(*Str).concrete(); ok {
@@ -334,6 +374,38 @@ func (x *Exec) native(name string, fn *ssa.Function, args []Value) (Value, bool)
 		return x.indexSeq(args[0].(*Str).b, args[1].(*Str).b), true
 	case "bytes.Index":
 		return x.indexSeq(x.sliceBytes(args[0].(SliceV)), x.sliceBytes(args[1].(SliceV))), true
+	case "(*regexp.Regexp).Split":
+		re, isRe := args[0].(Ptr).o.(*Cell).v.(Native).v.(*regexp.Regexp)
+		conc, ok := args[1].(*Str).concrete()
+		if !isRe || !ok {
+			model := x.harnessPkg.Func("verifRegexFindAll")
+			if !isRe || model == nil {
+				panic(abortPath{"regexp Split on symbolic text without a harness model", false})
+			}
+			// pieces between the matches of the model (all model patterns match at least one byte)
+			src := args[1].(*Str)
+			r := x.call(model, []Value{strOf(rePattern(re)), src, BV(^uint64(0), 64)}, nil).(SliceV)
+			var parts []Value
+			prev := 0
+			for i := 0; i < r.len; i++ {
+				pr := load(r.a.e[r.off+i]).(SliceV)
+				a, b := concInt(load(pr.a.e[pr.off])), concInt(load(pr.a.e[pr.off+1]))
+				parts = append(parts, &Str{b: src.b[prev:a]})
+				prev = b
+			}
+			parts = append(parts, &Str{b: src.b[prev:]})
+			arr := &ArrayObj{e: make([]Obj, len(parts))}
+			for i := range parts {
+				arr.e[i] = &Cell{v: parts[i]}
+			}
+			return SliceV{a: arr, len: len(parts), cap: len(parts)}, true
+		}
+		m := re.Split(conc, concInt(args[2]))
+		a := &ArrayObj{e: make([]Obj, len(m))}
+		for i := range m {
+			a.e[i] = &Cell{v: strOf(m[i])}
+		}
+		return SliceV{a: a, len: len(m), cap: len(m)}, true
 	case "(*regexp.Regexp).FindStringSubmatch":
 		re, isRe := args[0].(Ptr).o.(*Cell).v.(Native).v.(*regexp.Regexp)
 		conc, ok := args[1].(*Str).concrete()
@@ -422,6 +494,12 @@ func (x *Exec) native(name string, fn *ssa.Function, args []Value) (Value, bool)
 			return FP(math.Sqrt(a.f())), true
 		}
 		return mkOp("uf_"+strings.ToLower(name[5:]), Sort{FP: true}, "uf", 0, a), true
+	case "math.Abs":
+		a := args[0].(*Term)
+		if a.isC {
+			return FP(math.Abs(a.f())), true
+		}
+		return mkOp("fp.abs", Sort{FP: true}, "fp.abs", 0, a), true
 	case "math.NaN":
 		return FP(math.NaN()), true
 	case "math.Inf":
